@@ -158,7 +158,8 @@ BOUNDS = {"quick": {"radius": "<= 2 on unbounded grids, or unbounded radius on g
           "thorough": {"radius": "<= 3 on unbounded grids (<= 4 for tuple form), or unbounded radius on grids with extents <= 2R+1",
                        "id-form centres": "every concrete shape with extents <= 3"}}
 OUTSIDE = ["larger radii on grids wider than 2R+1", "wrapping (excluded by the property)", "ascending order at R = 4 (z3: unknown after 600 s; decided up to R = 3)", "id form (ret_type=int): width and height concrete 0..3/4 per query, depth unbounded (the id is non-linear in width*height; that ids equal table ranks for ALL shapes is C09's id_formula)"]
-STUBS = ["self.cells replaced by stand-ins: symbolic shapes use the arithmetic inverse of the table rank, concrete shapes the REAL position table",
+STUBS = ["X worlds are built by the real constructors with ECAgent.Environments.pandas replaced by the contract stand-in vf.stubs.Frame; lru_cache-wrapped helpers replaced by a Python-level memo",
+         "self.cells replaced by stand-ins: symbolic shapes use the arithmetic inverse of the table rank, concrete shapes the REAL position table",
          "PositionComponent centres carry a real-valued in-cell offset 0 <= f < 1 (int() of a non-negative value is exact truncation)"]
 ASSUMPTIONS = ["cell order = position in the world's own table (z-major, y, x), as established by C09"]
 
